@@ -344,6 +344,17 @@ EXTRA["C11"] = (" A planar molecule 40 A away from the origin (float32 coordinat
                 "first / last) are part of the plan; both found defects of the pinned tree that are repaired (10a5ec9, 25e1d5d).")
 EXTRA["C16"] = " Requests are also rendered with whitespace around them, and range requests whose stop lies 1e-3 nm above a grid point are included."
 EXTRA["C17"] = " The quick tier adds 6000 random names of four and five tokens."
+EXTRA["C02"] += (" Every answer is snapshotted when the call returns, the border matrix is asked again after the distance matrix, and the adjacency / "
+                 "distance getters are asked once more with only_position / only_orientation: each partial matrix must be exactly the part of the "
+                 "full matrix between cells at one position / with one rotation (PartClause).")
+EXTRA["C05"] += " Equidistant radial grids are written alternately as range(start, stop, step) and linspace(start, stop, n) texts."
+EXTRA["C08"] += (" The N x N getters are also asked with their documented options (only_upper=False, include_opposing_neighbours=False) on the "
+                 "same objects, in the orders the model generates.")
+EXTRA["C09"] += " For an even number of radii a caller converts the array it was handed to nm and reverses it in place before asking again."
+EXTRA["C13"] += (" Random histories on 10, 21 and 40 rows contain mass deletions (all but 1-5 cells removed at once, survivors with high row numbers), "
+                 "what the combined step does with an upper limit on a steep landscape.")
+EXTRA["C19"] = (" Fourteen specifications with named algorithms beyond the box (cube4D_12 / _41, fulldiv_8 / _40, randomQ_9, zero grids, ico_13, cube3D_9 ...) "
+                "are created one after the other in ONE process in a seeded order and in the reverse order, every getter asked in a random order.")
 for _pid, _txt in EXTRA.items():
     CHECKS[_pid]["level_claimed"]["text"] += _txt
 CHECKS["C04"]["level_note"] = CHECKS["C04"]["level_note"].replace("face areas compared at 1e-5 absolute; N <= 60", "face areas compared at 1e-8 absolute; brute-force complex for N <= 60, structure-only beyond")
@@ -365,7 +376,7 @@ def build():
         engines=[dict(name="tlc", path="/opt/veriftools/tla/tla2tools.jar", serves_properties=sorted(CHECKS),
                       kind_free_text="TLA+ specifications under /verif/spec checked with TLC 1.8 (exhaustive, -simulate, -dump dot, trace validation); python harness binds them to molgri")],
         checks=[CHECKS[p] for p in sorted(CHECKS)],
-        notes="Known findings: /verif/known_findings.json. Fix commits in /repo start with 'fix:' (12, listed in DESIGN.md 11.4). Beyond the twenty claimed properties the specification is bound to the code by growth checks G01-G15 (./check Gxx, evidence under evidence_growth/, DESIGN.md 11.7), binding demonstrations (./check --selftest) and TLAPS proofs (./check --proofs); seeded/ holds 120 confirmed breaking changes and refactors/ 60 property-preserving ones used to test the checks (DESIGN.md 11.8-11.10).",
+        notes="Known findings: /verif/known_findings.json. Fix commits in /repo start with 'fix:' (12, listed in DESIGN.md 11.4). Beyond the twenty claimed properties the specification is bound to the code by growth checks G01-G15 (./check Gxx, evidence under evidence_growth/, DESIGN.md 11.7), binding demonstrations (./check --selftest) and TLAPS proofs (./check --proofs); seeded/ holds the confirmed breaking changes of five rounds (138+) and refactors/ 60 property-preserving ones used to test the checks (DESIGN.md 11.8-11.10).",
         not_applicable=na,
     )
     # never write an invalid manifest
